@@ -78,6 +78,7 @@ class PModel:
         self.calls = {"r": 0, "w": 0}
         self.fault = None            # (kind 'r'|'w', k, short)
         self.short_groups = set()    # groups whose reload was cut short by the driver: their RAM content is open
+        self.fill = None             # byte the application writes to all parameter RAM inside the mode change callback for INITIALISING
 
     def _short(self, kind, size):
         self.calls[kind] += 1
@@ -90,6 +91,9 @@ class PModel:
         """init / reset reload; returns True if a read was short"""
         err = False
         lay = self.lay
+        if self.fill is not None:
+            # the application sets its factory defaults when it is told that the node initialises; the stored values go on top
+            self.ram = [bytearray([self.fill]) * g["size"] for g in lay.groups]
         for t in types:
             for sub in lay.subs():
                 g = lay.group_of(sub)
@@ -171,6 +175,9 @@ def execute(res, exe, lay, ops, fault, tag, sample=False):
     m.fault = fault
     m.fault_hit = False
     sim = S.Sim(exe, cfg, init=False)
+    if zlib.crc32(repr((tag, fault)).encode()) % 10 < 3:
+        m.fill = 0x5A
+        sim.p.stdin.write("ramfillcb 0x5A\n")
     script = []
     stores = reloads = 0
 
